@@ -3,15 +3,17 @@
    (vf/props/c18.py, file-system steps from vf/fsstep.py) must be behaviours of the specification.
    Every event carries the projection of the real directory after the step; one TLC run validates a batch. *)
 EXTENDS Backup, Json, IOUtils, TLCExt
-Traces == JsonDeserialize(IOEnv.TRACE_FILE)
-TraceTrees == {Traces[i].tree : i \in 1..Len(Traces)}
+\* one file per recorded run: <TRACE_DIR>/t<i>.json, i in 1..TRACE_N  (a file is read once, in TraceInit)
+TraceAt(i) == JsonDeserialize(IOEnv.TRACE_DIR \o "/t" \o ToString(i) \o ".json")
+NTraces == atoi(IOEnv.TRACE_N)
+TraceTrees == {}
 NoArgs == {}
-VARIABLES tid, l
-tvars == <<vars, tid, l>>
-Evs == Traces[tid].ev
+VARIABLES tid, l, evs      \* evs: the events of trace tid (kept in the state so that the file is read once per trace)
+tvars == <<vars, tid, l, evs>>
+Evs == evs
 Ev == Evs[l]
-TraceInit == Init /\ tid \in 1..Len(Traces) /\ tree = Traces[tid].tree /\ l = 1
-IsEv(op) == l <= Len(Evs) /\ Ev.op = op /\ l' = l + 1 /\ UNCHANGED tid
+TraceInit == \E i \in 1..NTraces : LET T == TraceAt(i) IN tid = i /\ InitFor(T.tree) /\ evs = T.ev /\ l = 1
+IsEv(op) == l <= Len(Evs) /\ Ev.op = op /\ l' = l + 1 /\ UNCHANGED <<tid, evs>>
 \* projected content of a real file: k chunks present; identity known unless the file is empty
 Same(c, e) == c.k = e.k /\ (c.k <= 0 \/ (c.o = e.o /\ c.v = e.v /\ c.r = e.r))
 PostData == \A i \in Idx : Same(data'[i], Ev.data[i])
